@@ -74,7 +74,7 @@ class C17(Check):
     ASSUMPTIONS = ['crash model = process crash: every completed system call survives, an interrupted write leaves a '
                    'prefix; power loss (un-fsynced data vanishing after a completed rename) is not judged',
                    'one fault per replayed history']
-    PROBES = ('fs.error', 'fs.torn', 'fs.crash_before', 'fs.crash_after', 'fs.crash_torn', 'c17.corrupt-file',
+    PROBES = ('c17.restart-in-process', 'fs.error', 'fs.torn', 'fs.crash_before', 'fs.crash_after', 'fs.crash_torn', 'c17.corrupt-file',
               'c17.restart-after-crash', 'c17.retry-after-error', 'c17.cfg-given', 'c17.concurrent-saves')
 
     def gen_case(self, rng, tier):
@@ -100,7 +100,7 @@ class C17(Check):
                 op['v'] = dtgen.valid_wire(rng, p['di'], surrogates=True)
             ops.append(op)
         ops.append({'kind': 'save'})
-        shape = {'spec': {'params': params, 'plain': plain}, 'nflip': 6 if tier == 'quick' else 40,
+        shape = {'spec': {'params': params, 'plain': plain, 'same_process': rng.random() < 0.6}, 'nflip': 6 if tier == 'quick' else 40,
                  'prepopulate': rng.choice([None, 'valid', 'valid'])}
         if rng.random() < 0.3:
             # two threads change persistent parameters of the module at the same time (a poller assigning a reading, a
@@ -144,9 +144,16 @@ class C17(Check):
         srv.secnode = Stub()
         srv.secnode.equipment_id = 'eq'
         cfg = {'description': 'persistent module'}
+        # a restart inside the process (Server.restart) builds the modules again from the configuration kept in
+        # memory: the sections are copied (shallow, as SecNode does), the parameter entries are the same objects
+        kept = ctx.setdefault('kept_cfg', {})
         for p in spec['params']:
             if p.get('given') is not None:
-                cfg[p['name']] = {'value': dtgen.to_internal(p['di'], p['given'])}
+                if spec.get('same_process', True) and p['name'] in kept:
+                    ctx['world'].sim.count('c17.restart-in-process')
+                else:
+                    kept[p['name']] = {'value': dtgen.to_internal(p['di'], p['given'])}
+                cfg[p['name']] = kept[p['name']]
         log = ctx['world'].logger('pers')
         mod = cls('m', log, cfg, srv)
         mod.hwlog = []
